@@ -37,7 +37,7 @@ def cases(tier, seed):
     via = ["in_timezone", "in_tz", "astimezone", "convert"]
     k = 0
     for dst in dsts:
-        trs = T.transition_probes(dst, rnd, per_zone=None if tier == "thorough" else 12)
+        trs = T.transition_probes(dst, rnd, per_zone=None if tier == "thorough" else 30)
         for (tt, o_pre, o_post) in trs:
             src = allz[rnd.randrange(len(allz))] if k % 5 else fixed[rnd.randrange(len(fixed))]
             for U in _instants_around(tt, o_pre, o_post):
@@ -55,7 +55,7 @@ def cases(tier, seed):
                     out.append({"stream": "timestamp", "fn": "from_ts", "args": [dst, U // T.MEG - T.EPOCH_S]})
                 if k % 17 == 0:
                     out.append({"stream": "instance", "fn": "instance", "args": [KINDS[(k // 17) % 5], dst, U]})
-    n_rand = 4000 if tier == "quick" else 80000
+    n_rand = 15000 if tier == "quick" else 80000
     for _ in range(n_rand):
         a, b = allz[rnd.randrange(len(allz))], allz[rnd.randrange(len(allz))]
         if rnd.random() < 0.2:
